@@ -17,9 +17,11 @@ Set Implicit Arguments.
 Unset Strict Implicit.
 Unset Printing Implicit Defensive.
 Import GRing.Theory.
+(* mathcomp's ssrint binds the key Z to int_scope; give Z_scope a key of its own *)
+Delimit Scope Z_scope with ZZ.
 
 (* BLS12-381 scalar field order *)
-Definition r : Z := 0x73eda753299d7d483339d80809a1d80553bda402fffe5bfeffffffff00000001%Z.
+Definition r : Z := 0x73eda753299d7d483339d80809a1d80553bda402fffe5bfeffffffff00000001%ZZ.
 
 Section ModArith.
 Variable m : Z.
@@ -38,24 +40,43 @@ Fixpoint powm_pos (a : Z) (e : positive) : Z :=
   | xI e' => let b := powm_pos a e' in mulm a (mulm b b)
   end.
 
-(* inverse by Fermat: a^(m-2) *)
-Definition invm (a : Z) : Z := powm_pos a (Z.to_pos (Z.sub m 2)).
+(* inverse: Bezout coefficients (s, t) from the extended Euclid algorithm, CHECKED by
+   s*a + t*m = 1 (two multiplications, no division); if the check fails (it never does for a prime
+   modulus and a <> 0 mod m) fall back to Fermat a^(m-2).  The check makes the correctness proof
+   independent of the Euclid loop.  Invariant of the loop: r_i = s_i*a + t_i*m. *)
+Fixpoint egcd (fuel : nat) (r0 r1 s0 s1 t0 t1 : Z) : Z * Z :=
+  match fuel with
+  | O => (s0, t0)
+  | S f => if Z.eqb r1 0%ZZ then (s0, t0)
+           else let (q, rm) := Z.div_eucl r0 r1 in
+                egcd f r1 rm s1 (Z.sub s0 (Z.mul q s1)) t1 (Z.sub t0 (Z.mul q t1))
+  end.
+
+Definition invm (a : Z) : Z :=
+  let a' := redm a in
+  if Z.eqb a' 0%ZZ then 0%ZZ
+  else let (s, t) := egcd 2000 m a' 0%ZZ 1%ZZ 1%ZZ 0%ZZ in
+       if Z.eqb (Z.add (Z.mul s a') (Z.mul t m)) 1%ZZ
+       then (if Z.ltb s 0%ZZ then Z.add s m else s)
+       else powm_pos a (Z.to_pos (Z.sub m 2)).
 
 (* Lagrange coefficient at 0 of the share with id xi among the shares with ids [ids] *)
 Definition lamZ (ids : seq Z) (xi : Z) : Z :=
-  let num := foldr (fun xk acc => if eqm xk xi then acc else mulm xk acc) 1%Z ids in
-  let den := foldr (fun xk acc => if eqm xk xi then acc else mulm (subm xk xi) acc) 1%Z ids in
-  mulm num (invm den).
+  (* numerator and denominator are accumulated as plain integers (share ids are small) and
+     reduced once; the sign is moved to the numerator so that the denominator stays small *)
+  let num := foldr (fun xk acc => if eqm xk xi then acc else Z.mul xk acc) 1%ZZ ids in
+  let den := foldr (fun xk acc => if eqm xk xi then acc else Z.mul (Z.sub xk xi) acc) 1%ZZ ids in
+  if Z.ltb den 0%ZZ then mulm (Z.opp num) (invm (Z.opp den)) else mulm num (invm den).
 
 Definition lagrange_coeffs (ids : seq Z) : seq Z := map (lamZ ids) ids.
 
 (* shares as (id, value) pairs — the Go maps  map[int]PrivateKey *)
 Definition recoverZ (sh : seq (Z * Z)) : Z :=
   let ids := map fst sh in
-  foldr (fun s acc => addm (mulm (lamZ ids s.1) s.2) acc) 0%Z sh.
+  redm (foldr (fun s acc => Z.add (Z.mul (lamZ ids s.1) s.2) acc) 0%ZZ sh).
 
 (* Horner evaluation of the polynomial with coefficients cs (constant term first) *)
-Definition evalZ (cs : seq Z) (a : Z) : Z := foldr (fun c acc => addm c (mulm a acc)) 0%Z cs.
+Definition evalZ (cs : seq Z) (a : Z) : Z := foldr (fun c acc => redm (Z.add c (Z.mul a acc))) 0%ZZ cs.
 
 (* shares for ids 1..n:  sk.Set(poly, id) for id = 1..total *)
 Definition splitZ (cs : seq Z) (n : nat) : seq Z :=
@@ -92,7 +113,7 @@ Definition split_insecure (secret : Z) (total threshold : nat) (chunks : seq Z) 
 
 (* cluster.verifySharesReconstruct on scalars: ys are the n shares of ids 1..n *)
 Definition sub_shares (ys : seq Z) (idx : seq nat) : seq (Z * Z) :=
-  map (fun i => (Z.of_nat i.+1, nth 0%Z ys i)) idx.
+  map (fun i => (Z.of_nat i.+1, nth 0%ZZ ys i)) idx.
 
 Definition vsr_checkZ (dv : Z) (ys : seq Z) (t : nat) : bool :=
   [&& (0 < t)%N, (t <= size ys)%N, Z.eqb (recoverZ (sub_shares ys (vsr_first t))) (redm dv)
@@ -116,21 +137,22 @@ Hypothesis m_p : Z.of_nat p = m.
 Hypothesis p_gt2 : (2 < p)%N.
 
 Local Notation Fp := 'F_p.
+Local Notation FpF := (Fp_fieldType p).
 Local Open Scope ring_scope.
 
 Definition phi (z : Z) : Fp := (int_of_Z z)%:~R.
-Definition psi (u : Fp) : Z := Z.of_nat (val u).
+Definition psi (u : Fp) : Z := Z.of_nat (nat_of_ord u).
 
 Lemma phiD a b : phi (Z.add a b) = phi a + phi b.
-Proof. by rewrite /phi -rmorphD -[Z.add a b]/(a + b) rmorphD. Qed.
+Proof. by rewrite /phi (_ : Z.add a b = (a + b)%R) // rmorphD rmorphD. Qed.
 Lemma phiM a b : phi (Z.mul a b) = phi a * phi b.
-Proof. by rewrite /phi -rmorphM -[Z.mul a b]/(a * b) rmorphM. Qed.
+Proof. by rewrite /phi (_ : Z.mul a b = (a * b)%R) // rmorphM rmorphM. Qed.
 Lemma phiN a : phi (Z.opp a) = - phi a.
-Proof. by rewrite /phi -rmorphN -[Z.opp a]/(- a) rmorphN. Qed.
+Proof. by rewrite /phi (_ : Z.opp a = (- a)%R) // rmorphN rmorphN. Qed.
 Lemma phiB a b : phi (Z.sub a b) = phi a - phi b.
 Proof. by rewrite -phiN -phiD. Qed.
-Lemma phi0 : phi 0%Z = 0. Proof. by []. Qed.
-Lemma phi1 : phi 1%Z = 1. Proof. by []. Qed.
+Lemma phi0 : phi 0%ZZ = 0. Proof. by []. Qed.
+Lemma phi1 : phi 1%ZZ = 1. Proof. by []. Qed.
 
 Lemma phi_nat n : phi (Z.of_nat n) = n%:R.
 Proof.
@@ -141,11 +163,11 @@ Qed.
 Lemma phi_m : phi m = 0.
 Proof. by rewrite -m_p phi_nat; apply: charf0; apply: char_Fp. Qed.
 
-Lemma m_pos : (0 < m)%Z. Proof. by move: p_gt2 m_p; lia. Qed.
+Lemma m_pos : (0 < m)%ZZ. Proof. by move: p_gt2 m_p; lia. Qed.
 
 Lemma phi_mod a : phi (Z.modulo a m) = phi a.
 Proof.
-have mne : m <> 0%Z by have := m_pos; lia.
+have mne : m <> 0%ZZ by have := m_pos; lia.
 rewrite [in RHS](Z.div_mod a m mne) phiD phiM phi_m mul0r add0r.
 by [].
 Qed.
@@ -158,7 +180,7 @@ Lemma psi_phi a : psi (phi a) = Z.modulo a m.
 Proof.
 have mp := m_pos.
 have [lo hi] := Z.mod_pos_bound a m mp.
-rewrite -(phi_mod a) -[in LHS](Z2Nat.id _ lo) phi_nat /psi val_Fp_nat // modn_small.
+rewrite -(phi_mod a) -[in LHS](Z2Nat.id _ lo) phi_nat /psi (val_Fp_nat p_prime) modn_small.
   by rewrite Z2Nat.id.
 by move: hi lo m_p; lia.
 Qed.
@@ -172,8 +194,10 @@ Qed.
 Lemma phi_powm a e : phi (powm_pos m a e) = phi a ^+ Pos.to_nat e.
 Proof.
 elim: e => [e IH|e IH|] /=.
-- by rewrite !phi_mul IH Pos2Nat.inj_xI exprS -mul2n mulnC exprM expr2.
-- by rewrite phi_mul IH Pos2Nat.inj_xO -mul2n mulnC exprM expr2.
+- have -> : Pos.to_nat e~1 = (Pos.to_nat e + Pos.to_nat e).+1 by lia.
+  by rewrite !phi_mul IH exprS exprD.
+- have -> : Pos.to_nat e~0 = (Pos.to_nat e + Pos.to_nat e)%N by lia.
+  by rewrite phi_mul IH exprD.
 - by rewrite phi_mod Pos2Nat.inj_1 expr1.
 Qed.
 
@@ -190,57 +214,82 @@ Qed.
 
 Lemma phi_inv a : phi (invm m a) = (phi a)^-1.
 Proof.
-rewrite /invm phi_powm -fermat_inv; congr (_ ^+ _).
-by move: p_gt2 m_p; lia.
+rewrite /invm; case: Z.eqb_spec => [e|_].
+  by rewrite -(phi_mod a) -/(redm m a) e phi0 invr0.
+case: (egcd _ _ _ _ _ _ _) => s t; case: Z.eqb_spec => [e|_]; last first.
+  rewrite phi_powm -fermat_inv; congr (_ ^+ _).
+  by move: p_gt2 m_p; lia.
+have h : phi s * phi a = 1.
+  by rewrite -[RHS]phi1 -e phiD !phiM phi_m mulr0 addr0 /redm phi_mod.
+have nz : phi a != 0 by apply/eqP => z; move: h; rewrite z mulr0 => /esym/eqP; rewrite oner_eq0.
+have -> : phi (if Z.ltb s 0%ZZ then Z.add s m else s) = phi s.
+  by case: Z.ltb => //; rewrite phiD phi_m addr0.
+by apply: (mulIf nz); rewrite h mulVf.
 Qed.
 
 (* ids as field elements *)
 Definition xf (s : Z * Z) : Fp := phi s.1.
 Definition yf (s : Z * Z) : Fp^o := phi s.2.
 
+Lemma phi_num (sh : seq (Z * Z)) xi :
+  phi (foldr (fun xk acc => if eqm m xk xi then acc else Z.mul xk acc) 1%ZZ (map fst sh)) =
+  \prod_(k <- sh | xf k != phi xi) xf k.
+Proof.
+elim: sh => [|s sh IH]; first by rewrite big_nil.
+rewrite big_cons /= -phi_inj_mod /xf; case: (_ == _) => //=.
+by rewrite phiM IH.
+Qed.
+
+Lemma phi_den (sh : seq (Z * Z)) xi :
+  phi (foldr (fun xk acc => if eqm m xk xi then acc else Z.mul (Z.sub xk xi) acc) 1%ZZ (map fst sh)) =
+  \prod_(k <- sh | xf k != phi xi) (xf k - phi xi).
+Proof.
+elim: sh => [|s sh IH]; first by rewrite big_nil.
+rewrite big_cons /= -phi_inj_mod /xf; case: (_ == _) => //=.
+by rewrite phiM phiB IH.
+Qed.
+
 Lemma phi_lamZ (sh : seq (Z * Z)) xi :
   phi (lamZ m (map fst sh) xi) = \prod_(k <- sh | xf k != phi xi) (xf k / (xf k - phi xi)).
 Proof.
-rewrite /lamZ phi_mul phi_inv prodf_div; congr (_ / _).
-  elim: sh => [|s sh IH]; first by rewrite big_nil.
-  rewrite big_cons /= -phi_inj_mod /xf; case: (_ == _) => //=.
-  by rewrite phi_mul IH.
-elim: sh => [|s sh IH]; first by rewrite big_nil.
-rewrite big_cons /= -phi_inj_mod /xf; case: (_ == _) => //=.
-by rewrite phi_mul phi_sub IH.
+rewrite prodf_div -phi_num -phi_den /lamZ; cbv zeta.
+set den := foldr _ _ _; set num := foldr _ _ _.
+by case: Z.ltb; rewrite phi_mul phi_inv // !phiN invrN mulrNN.
 Qed.
 
 Lemma phi_recoverZ (sh : seq (Z * Z)) : phi (recoverZ m sh) = recover xf sh yf.
 Proof.
 rewrite /recoverZ /recover; set ids := map fst sh.
 have lamE s : phi (lamZ m ids s.1) = lam xf sh s by rewrite phi_lamZ.
-elim: {1 3}sh => [|s sh' IH]; first by rewrite big_nil.
-by rewrite big_cons /= phi_add phi_mul IH lamE.
+rewrite phi_mod.
+have gen (sh' : seq (Z * Z)) :
+    phi (foldr (fun s acc => Z.add (Z.mul (lamZ m ids s.1) s.2) acc) 0%ZZ sh') =
+    \sum_(s <- sh') lam xf sh s *: yf s.
+  elim: sh' => [|s sh' IH]; first by rewrite big_nil.
+  by rewrite big_cons /= phiD phiM IH lamE.
+exact: gen.
 Qed.
 
 Lemma recoverZ_red (sh : seq (Z * Z)) : recoverZ m sh = psi (phi (recoverZ m sh)).
-Proof.
-rewrite psi_phi /recoverZ; case: sh => [|s sh] /=; first by rewrite Z.mod_0_l //; have := m_pos; lia.
-by rewrite /addm Z.mod_mod //; have := m_pos; lia.
-Qed.
+Proof. by rewrite psi_phi /recoverZ /redm Z.mod_mod //; have := m_pos; lia. Qed.
 
 Definition polyZ (cs : seq Z) : {poly Fp} := Poly (map phi cs).
 
 Lemma phi_evalZ cs a : phi (evalZ m cs a) = (polyZ cs).[phi a].
 Proof.
 rewrite /polyZ; elim: cs => [|c cs IH] /=; first by rewrite horner0.
-by rewrite horner_cons phi_add phi_mul IH addrC mulrC.
+by rewrite horner_cons phi_mod phiD phiM IH addrC mulrC.
 Qed.
 
 Lemma size_polyZ cs : (size (polyZ cs) <= size cs)%N.
 Proof. by apply: leq_trans (size_Poly _) _; rewrite size_map. Qed.
 
-Lemma polyZ_at0 cs : (polyZ cs).[0] = phi (head 0%Z cs).
+Lemma polyZ_at0 cs : (polyZ cs).[0] = phi (head 0%ZZ cs).
 Proof. by rewrite horner_coef0 coef_Poly; case: cs. Qed.
 
 (* admissible ids: pairwise distinct and non-zero modulo m *)
 Definition ids_okZ (ids : seq Z) : bool :=
-  uniq (map (redm m) ids) && all (fun a => ~~ Z.eqb (redm m a) 0%Z) ids.
+  uniq (map (redm m) ids) && all (fun a => ~~ Z.eqb (redm m a) 0%ZZ) ids.
 
 Lemma ids_okZ_distinct (sh : seq (Z * Z)) : ids_okZ (map fst sh) -> ids_distinct xf sh.
 Proof.
@@ -263,18 +312,61 @@ Qed.
    id list with at least (length cs) ids — in particular for every subset of 1..n of size >= t *)
 Theorem recoverZ_split cs ids :
   ids_okZ ids -> (size cs <= size ids)%N ->
-  recoverZ m (zip ids (map (evalZ m cs) ids)) = redm m (head 0%Z cs).
+  recoverZ m (zip ids (map (evalZ m cs) ids)) = redm m (head 0%ZZ cs).
 Proof.
 move=> ok sz; set sh := zip _ _.
-have fst_sh : map fst sh = ids by rewrite /sh unzip1_zip // size_map.
+have fst_sh : map fst sh = ids by apply: unzip1_zip; rewrite size_map.
 rewrite recoverZ_red phi_recoverZ /redm -psi_phi; congr psi.
 have U : ids_distinct xf sh by apply: ids_okZ_distinct; rewrite fst_sh.
 rewrite -polyZ_at0 -(@split_recover _ _ xf sh (polyZ cs) (size cs) U (size_polyZ cs)); last first.
   by rewrite -(size_map fst) fst_sh.
 rewrite /recover big_seq_cond [in RHS]big_seq_cond; apply: eq_bigr => s /andP[sin _].
 rewrite /yf /xf -phi_evalZ; congr (_ * phi _).
-move: sin; rewrite /sh => /(nthP (0%Z, 0%Z)) [i]; rewrite size_zip size_map minnn => lt <-.
-by rewrite nth_zip ?size_map //= (nth_map 0%Z).
+move: sin; rewrite /sh => /(nthP (0%ZZ, 0%ZZ)) [i]; rewrite size_zip size_map minnn => lt <-.
+by rewrite nth_zip ?size_map //= (nth_map 0%ZZ).
+Qed.
+
+(* Z2: the scalar version of cluster.verifySharesReconstruct is the abstract check read in 'F_p *)
+Lemma recoverZ_eqb sh dv : Z.eqb (recoverZ m sh) (redm m dv) = (phi (recoverZ m sh) == phi dv).
+Proof.
+apply/idP/eqP => [/Z.eqb_spec ->|e]; first by rewrite /redm phi_mod.
+by rewrite recoverZ_red e psi_phi /redm Z.eqb_refl.
+Qed.
+
+Definition yfield (ys : seq Z) (i : nat) : Fp^o := phi (nth 0%ZZ ys i).
+
+Lemma phi_recover_sub ys idx :
+  phi (recoverZ m (sub_shares ys idx)) = recover (idn FpF) idx (yfield ys).
+Proof.
+rewrite phi_recoverZ /sub_shares recover_map.
+apply: (@recover_eq FpF nat_eqType _ _ (GRing.regular_lmodType FpF)) => i //.
+exact: (phi_nat i.+1).
+Qed.
+
+Lemma vsr_checkZ_field dv ys t :
+  vsr_checkZ m dv ys t = vsr_check (idn FpF) (phi dv : Fp^o) (yfield ys) (size ys) t.
+Proof.
+rewrite /vsr_checkZ /vsr_check recoverZ_eqb phi_recover_sub; do 3 congr (_ && _).
+by apply: eq_all => i; rewrite recoverZ_eqb phi_recover_sub.
+Qed.
+
+Lemma char_above_Fp n : (n < p)%N -> char_above FpF n.
+Proof. by move=> lt q; rewrite (charf_eq (char_Fp p_prime)) => /eqP->. Qed.
+
+Theorem vsr_checkZ_sound dv ys t : (size ys < p)%N -> vsr_checkZ m dv ys t ->
+  on_one_poly (idn FpF) (phi dv : Fp^o) (yfield ys) (size ys) t.
+Proof.
+move=> lt; rewrite vsr_checkZ_field.
+have [D N] := iota_ids_ok (char_above_Fp lt).
+exact: verify_shares_reconstruct_sound.
+Qed.
+
+Theorem vsr_checkZ_complete dv ys t : (size ys < p)%N -> (0 < t <= size ys)%N ->
+  on_one_poly (idn FpF) (phi dv : Fp^o) (yfield ys) (size ys) t -> vsr_checkZ m dv ys t.
+Proof.
+move=> lt tn; rewrite vsr_checkZ_field.
+have [D N] := iota_ids_ok (char_above_Fp lt).
+exact: verify_shares_reconstruct_complete.
 Qed.
 
 End Refinement.
